@@ -16,15 +16,16 @@ CfgAlgs == IF Quick THEN {"none", "HS256", "HS512", "RS256", "PS256", "ES256", "
 Bases == IF Quick THEN {"rsa2048a", "p256a", "p384a", "ed25519a"}
          ELSE {"rsa2048a", "rsa3072a", "p256a", "p384a", "p521a", "k256a", "ed25519a", "ed448a"}
 OctLens == IF Quick THEN {32, 64} ELSE {32, 48, 64}
-AttrFor(kty) == CASE kty = "oct" -> {NONE, "HS256", "HS512", "RS256", "bogus"}
-                  [] kty = "RSA" -> {NONE, "RS256", "PS256", "HS256", "bogus"} \cup (IF Quick THEN {} ELSE {"RS512", "PS384", "ES256"})
-                  [] kty = "EC" -> {NONE, "ES256", "ES384", "HS256", "bogus"} \cup (IF Quick THEN {} ELSE {"ES512", "ES256K", "RS256"})
-                  [] kty = "OKP" -> {NONE, "EdDSA", "HS256", "bogus"}
-Keys == { AsymKey(b, 0, a, NONE) : b \in Bases, a \in RealAlgs \cup {NONE, "bogus"} }
+AttrFor(kty) == CASE kty = "oct" -> {NONE, "HS256", "HS512", "RS256", "bogus", "HS"}
+                  [] kty = "RSA" -> {NONE, "RS256", "PS256", "HS256", "bogus", "RS"} \cup (IF Quick THEN {} ELSE {"RS512", "PS384", "ES256"})
+                  [] kty = "EC" -> {NONE, "ES256", "ES384", "HS256", "bogus", "ES"} \cup (IF Quick THEN {} ELSE {"ES512", "ES256K", "RS256"})
+                  [] kty = "OKP" -> {NONE, "EdDSA", "HS256", "bogus", "Ed"}
+Keys == { AsymKey(b, 0, a, NONE) : b \in Bases, a \in RealAlgs \cup {NONE, "bogus", "RS", "ES", "Ed"} }
 KeySet == { k \in Keys : k.alg \in AttrFor(k.kty) }
           \cup { OctKey(n, "a", a, NONE) : n \in OctLens, a \in AttrFor("oct") }
-HdrAlgs == RealAlgs \cup {"none", "None", "NONE", "hs256", "HS256 ", "bogus", NONE, "#int", "#null"}
-SigClasses == {"empty", "garbage", "valid", "hmacempty", "hmacpubpem", "otherkey"}
+HdrAlgs == RealAlgs \cup {"none", "None", "NONE", "hs256", "HS256 ", "bogus", NONE, "#int", "#null"} \cup NearMiss("HS256") \cup NearMiss("RS256") \cup {"ES", "Ed", "E", "H"}
+\* "validcfg": a genuine signature by the checker's key under the checker's algorithm, whatever the header says
+SigClasses == {"empty", "garbage", "valid", "validcfg", "hmacempty", "hmacpubpem", "otherkey"}
 Routes == {"setkey", "cb-both", "cb-key", "cb-alg"}
 OtherKey(k) == IF k.kty = "oct" THEN [k EXCEPT !.var = "b"]
                ELSE CASE k.base = "rsa2048a" -> AsymKey("rsa2048b", 0, NONE, NONE)
@@ -38,27 +39,34 @@ OtherKey(k) == IF k.kty = "oct" THEN [k EXCEPT !.var = "b"]
 
 \* ------------------------------------------------------------- cells
 \* A: the table.  haskey = 0: no key at all.
-TableCells == { [part |-> "A", side |-> s, calg |-> a, haskey |-> 1, key |-> k, route |-> r, halg |-> "HS256", sig |-> "empty"] :
-                  s \in {"checker", "builder"}, a \in CfgAlgs, k \in KeySet, r \in {"setkey", "cb-both"} }
-         \cup { [part |-> "A", side |-> s, calg |-> a, haskey |-> 0, key |-> DummyKey, route |-> r, halg |-> "none", sig |-> "empty"] :
+\* The cells are kept as FAMILIES of small sets (functions), never as one big set: TLC normalises an explicit
+\* set with a binary insertion sort (quadratic element moves) and enumerates unions with a linear membership
+\* test per element; 290 k cells in one set cost 3 minutes before the first state, in families seconds.
+TableFam == [k \in KeySet |-> { [part |-> "A", side |-> s, calg |-> a, haskey |-> 1, key |-> k, route |-> r, halg |-> "HS256", sig |-> "empty"] :
+                                 s \in {"checker", "builder"}, a \in CfgAlgs, r \in {"setkey", "cb-both"} }]
+TableNoKey == { [part |-> "A", side |-> s, calg |-> a, haskey |-> 0, key |-> DummyKey, route |-> r, halg |-> "none", sig |-> "empty"] :
                   s \in {"checker", "builder"}, a \in CfgAlgs, r \in {"setkey", "cb-both"} }
 \* B: admitted checker configurations x token
 AdmittedCfg == { <<a, k>> \in CfgAlgs \X KeySet : a # "INVAL" /\ KeyAlg(k) # "INVAL" /\ Admit("checker", a, [id |-> 0, kd |-> k]) }
-TokCells == { [part |-> "B", side |-> "checker", calg |-> ak[1], haskey |-> 1, key |-> ak[2], route |-> r, halg |-> h, sig |-> s] :
-                ak \in AdmittedCfg, r \in Routes, h \in HdrAlgs, s \in SigClasses }
-TokCellsOK == { c \in TokCells :
+TokCells(ak) == { [part |-> "B", side |-> "checker", calg |-> ak[1], haskey |-> 1, key |-> ak[2], route |-> r, halg |-> h, sig |-> s] :
+                    r \in Routes, h \in HdrAlgs, s \in SigClasses }
+TokFam == [ak \in AdmittedCfg |-> { c \in TokCells(ak) :
                   /\ (c.sig \in {"hmacempty", "hmacpubpem"} => c.halg \in HSAlgs)
                   /\ (c.sig = "hmacpubpem" => c.key.kty # "oct")
+                  /\ (c.sig = "validcfg" => (c.calg # "none" \/ KeyAlg(c.key) # "none") /\ c.route \in {"setkey", "cb-both"})
                   /\ (c.route = "cb-alg" => c.calg # "none")
                   /\ (c.route = "cb-key" => c.calg = "none")
-                  /\ (Quick /\ c.route \in {"cb-key", "cb-alg"} => c.sig \in {"valid", "hmacempty"}) }
+                  /\ (Quick /\ c.route \in {"cb-key", "cb-alg"} => c.sig \in {"valid", "hmacempty"}) }]
 \* C: builder configurations (private keys), admitted or not
 GenKeys == { [k EXCEPT !.priv = 1] : k \in KeySet }
-GenCells == { [part |-> "C", side |-> "builder", calg |-> a, haskey |-> 1, key |-> k, route |-> r, halg |-> "none", sig |-> "empty"] :
-                a \in CfgAlgs, k \in GenKeys, r \in Routes }
-            \cup { [part |-> "C", side |-> "builder", calg |-> a, haskey |-> 1, key |-> [k EXCEPT !.priv = 0], route |-> "setkey", halg |-> "none", sig |-> "empty"] :
-                a \in {"none", "RS256", "ES256"}, k \in {x \in GenKeys : x.kty # "oct"} }
-AllCells == TableCells \cup TokCellsOK \cup GenCells
+GenFam == [k \in GenKeys |->
+             { [part |-> "C", side |-> "builder", calg |-> a, haskey |-> 1, key |-> k, route |-> r, halg |-> "none", sig |-> "empty"] :
+                 a \in CfgAlgs, r \in Routes }
+             \cup (IF k.kty = "oct" THEN {} ELSE
+                   { [part |-> "C", side |-> "builder", calg |-> a, haskey |-> 1, key |-> [k EXCEPT !.priv = 0], route |-> "setkey", halg |-> "none", sig |-> "empty"] :
+                       a \in {"none", "RS256", "ES256"} })]
+\* (no definition of the union of the three parts: TLC evaluates constant definitions eagerly and
+\* enumerates A \cup B with a linear membership test per element)
 
 \* ------------------------------------------------------------- scripts
 KeyOf(c) == IF c.side = "builder" /\ c.part = "A" THEN [c.key EXCEPT !.priv = 1] ELSE c.key
@@ -67,6 +75,7 @@ Idx(c) == IF c.haskey = 1 THEN 0 ELSE -1
 SigOf(c) == CASE c.sig = "empty" -> EmptySig
               [] c.sig = "garbage" -> [Sig("garbage", "HS256", DummyKey) EXCEPT !.cls = "garbage"]
               [] c.sig = "valid" -> Sig("valid", c.halg, c.key)
+              [] c.sig = "validcfg" -> Sig("valid", IF c.calg = "none" THEN KeyAlg(c.key) ELSE c.calg, c.key)
               [] c.sig = "hmacempty" -> Sig("hmacempty", c.halg, DummyKey)
               [] c.sig = "hmacpubpem" -> Sig("hmacpubpem", c.halg, c.key)
               [] c.sig = "otherkey" -> Sig("valid", c.halg, OtherKey(c.key))
@@ -103,7 +112,11 @@ VRef(c) ==
 GObs(c) == GenRefG(Bd(c), T0, Rs(c), "openssl")
 
 \* ------------------------------------------------------------ the model
-MCInit == Init /\ cell \in AllCells /\ done = FALSE
+MCInit == /\ Init /\ done = FALSE
+          /\ \/ \E k \in DOMAIN TableFam : cell \in TableFam[k]
+             \/ cell \in TableNoKey
+             \/ \E ak \in DOMAIN TokFam : cell \in TokFam[ak]
+             \/ \E k \in DOMAIN GenFam : cell \in GenFam[k]
 MCNext == done = FALSE /\ done' = TRUE /\ UNCHANGED <<cell, vars>>
 MCSpec == MCInit /\ [][MCNext]_<<cell, done, vars>>
 
